@@ -26,10 +26,11 @@ QUICK = {
     'structures': dict(ex_len=1, walk_len=3, walks=30, body_len=1, inputs=2, budget=700),
 }
 THOROUGH = {
-    'shapes': dict(ex_len=1, walk_len=4, walks=1500, body_len=2, inputs=4, budget=120000),
-    'shape-keys': dict(ex_len=2, walk_len=5, walks=2500, body_len=2, inputs=4, budget=50000),
-    'structures': dict(ex_len=2, walk_len=5, walks=1500, body_len=2, inputs=3, budget=50000),
-    'control': dict(ex_len=1, walk_len=5, walks=2000, body_len=2, inputs=3, budget=40000),
+    'shapes': dict(ex_len=1, walk_len=4, walks=200, body_len=2, inputs=3, budget=60000),
+    'shape-keys': dict(ex_len=2, walk_len=5, walks=600, body_len=2, inputs=4, budget=20000),
+    'structures': dict(ex_len=2, walk_len=5, walks=400, body_len=2, inputs=3, budget=20000),
+    'control': dict(ex_len=1, walk_len=5, walks=400, body_len=2, inputs=3, budget=15000),
+    'lambdas': dict(ex_len=1, walk_len=4, walks=300, body_len=1, inputs=3, budget=8000),
 }
 
 
